@@ -265,8 +265,21 @@ Jobs_C07 ==
          <<Rand(op, <<"fx", "u64">>, NR(300, 10000), Seed + 90 + o), Rand(op, <<"i64", "fx">>, NR(300, 10000), Seed + 95 + o),
            Rand(op, <<"fx", "f32">>, NR(300, 10000), Seed + 100 + o), Rand(op, <<"f64", "fx">>, NR(300, 10000), Seed + 105 + o)>>])
 
+(* ---- X01-X04: behaviour outside the listed properties (spec/FxContractXtra.tla) --------------------------------- *)
+Jobs_X01 == S2Q({Call("stream", <<"fx">>, <<x>>) : x \in {y \in LmAll : IsNaN(y) \/ (ZAbs(y) \preceq P(53))}})
+            \o <<Sweep("stream", "fx", ZN(-70000), ZN(70000), NR(7, 1)), RandB("stream", <<"fx">>, NR(4000, 100000), Seed + 1, 53)>>
+Jobs_X02 == [i \in 1..12 |-> Call("limits", <<"i32">>, <<ZN(i - 1)>>)]
+Jobs_X03 == S2Q({Call("lit_i", <<"u64">>, <<n>>) : n \in IntLm("u64")})
+            \o S2Q({CallF("lit_f", "f64", B64(0, E, M), "") : E \in E64, M \in M64})
+            \o S2Q({CallF("lit_f", "f64", FV(F64, 1, (n ** ZN(2)) ++ Z1, -17) ++ d, "") : n \in TieN, d \in {Z0, Z1, ZN(-1)}})
+            \o <<Rand("lit_i", <<"u64">>, NR(2000, 50000), Seed + 2), Rand("lit_f", <<"f64">>, NR(4000, 100000), Seed + 3)>>
+Jobs_X04 == S2Q({Call(op, <<"fx", "fx">>, <<x, y>>) : op \in Bin07, x \in {NaNv, NegNaN}, y \in Lm07})
+            \o S2Q({Call(op, <<"fx", "fx">>, <<y, x>>) : op \in Bin07, x \in {NaNv, NegNaN}, y \in Lm07})
+            \o S2Q({Call(op, <<"fx">>, <<x>>) : op \in Un07, x \in {NaNv, NegNaN}})
+
 JobsForT(p) ==
    CASE p = "C09" -> Jobs_C09 [] p = "C10" -> Jobs_C10 [] p = "C11" -> Jobs_C11 [] p = "C12" -> Jobs_C12
      [] p = "C14" -> Jobs_C14 [] p = "C19" -> Jobs_C19 [] p = "C20" -> Jobs_C20 \o Jobs_C20F
      [] p = "C05" -> Jobs_C05 [] p = "C16" -> Jobs_C16 [] p = "C17" -> Jobs_C17 [] p = "C07" -> Jobs_C07
+     [] p = "X01" -> Jobs_X01 [] p = "X02" -> Jobs_X02 [] p = "X03" -> Jobs_X03 [] p = "X04" -> Jobs_X04
 =============================================================================
